@@ -193,7 +193,7 @@ theorem encContentValueW_text (c : WCfg) (parent : Option Name) (s : Bytes) (st 
     (hs : nulFree s = true) (hl : langOk c.lang = true) (hnw : isWv c.lang.id = false)
     (hnd : (c.lang.id == 1801) = false) (h : encContentValueW c parent s st = .ok st') :
     ∃ items, st' = st.emit (serItems items) ∧ (∀ it ∈ items, Leaf c st.strtbl it) ∧
-      (s = [] → items = []) ∧
+      (s = [] → items = []) ∧ opqsItems items = [] ∧
       ∀ ctx : Ctx, Resolves ctx.tbl st.strtbl → ∀ own pg,
         (s ≠ [] → charsCat (evItems ctx own pg items).1 = syncmlTypeText c.lang.id s) ∧
         (evItems ctx own pg items).1.flatMap toks = (syncmlTypeText c.lang.id s).map .ch := by
@@ -202,7 +202,7 @@ theorem encContentValueW_text (c : WCfg) (parent : Option Name) (s : Bytes) (st 
   · rename_i he
     injection h with h; subst h
     have hse : s = [] := List.isEmpty_iff.mp he
-    exact ⟨[], by rw [serItems_nil, emit_nil], (by intro it hit; cases hit), fun _ => rfl,
+    exact ⟨[], by rw [serItems_nil, emit_nil], (by intro it hit; cases hit), fun _ => rfl, opqsItems_nil,
       fun _ _ _ _ => ⟨fun hne => absurd hse hne, by subst hse; rw [evItems_nil, syncmlTypeText_nil]; rfl⟩⟩
   · simp only [hnw, Bool.false_eq_true, ↓reduceIte, hnd, langOk_noexts hl hnw] at h
     have h' : (do
@@ -218,12 +218,13 @@ theorem encContentValueW_text (c : WCfg) (parent : Option Name) (s : Bytes) (st 
         (∀ tb, Resolves tb st.strtbl → l.flatMap (vval tb) = syncmlTypeText c.lang.id s) →
         emitVElts st l = st' →
         ∃ items, st' = st.emit (serItems items) ∧ (∀ it ∈ items, Leaf c st.strtbl it) ∧
-          (s = [] → items = []) ∧
+          (s = [] → items = []) ∧ opqsItems items = [] ∧
           ∀ ctx : Ctx, Resolves ctx.tbl st.strtbl → ∀ own pg,
             (s ≠ [] → charsCat (evItems ctx own pg items).1 = syncmlTypeText c.lang.id s) ∧
             (evItems ctx own pg items).1.flatMap toks = (syncmlTypeText c.lang.id s).map .ch := by
       intro l hl hcat he
-      refine ⟨l.flatMap itemsOfVElt, ?_, flatMap_itemsOfVElt_leaf c st.strtbl l (fun e he => (hl e he).1.1), ?_, ?_⟩
+      refine ⟨l.flatMap itemsOfVElt, ?_, flatMap_itemsOfVElt_leaf c st.strtbl l (fun e he => (hl e he).1.1), ?_,
+        opqs_velts l (fun e he => (hl e he).2), ?_⟩
       · rw [← he]; exact emitVElts_content l (fun e he => (hl e he).1.2) st
       · intro hse; rename_i hne; exact absurd (by rw [hse]; rfl) hne
       · intro ctx hres own pg
@@ -266,6 +267,7 @@ theorem encTextW_spec (c : WCfg) (parent : Option Name) (s : Bytes) (st st' : WS
       st'.strtblLen = st.strtblLen ∧ st'.inCdata = st.inCdata ∧
       (isWv c.lang.id = false → (c.lang.id == 1801) = false → langOk c.lang = true →
         st.inCdata = false → isBinaryTag st.curTag = false →
+        opqsItems items = [] ∧
         ∀ ctx : Ctx, Resolves ctx.tbl st.strtbl → ∀ own pg,
           (evItems ctx own pg items).1.flatMap toks = (normText c s).map .ch) := by
   have hA : ∀ k s', ({ st with textNo := st.textNo + 1 } : WSt).aliasWrite k s' = { st with textNo := st.textNo + 1 } :=
@@ -284,7 +286,9 @@ theorem encTextW_spec (c : WCfg) (parent : Option Name) (s : Bytes) (st st' : WS
     · rename_i hskip
       injection h with h; subst h
       refine ⟨[], (by intro it hit; cases hit), by rw [serItems_nil, List.append_nil], rfl, rfl, rfl, rfl, rfl, ?_⟩
-      intro _ _ _ hcd _ ctx _ own pg
+      intro _ _ _ hcd _
+      refine ⟨opqsItems_nil, ?_⟩
+      intro ctx _ own pg
       have hskip' : (!st.inCdata && c.ignoreEmpty && s.all isSpaceC) = true := hskip
       rw [hcd] at hskip'
       simp only [Bool.not_false, Bool.true_and] at hskip'
@@ -301,11 +305,13 @@ theorem encTextW_spec (c : WCfg) (parent : Option Name) (s : Bytes) (st st' : WS
           intro _ _ _ hcd _
           rw [hcd1'] at hcd; cases hcd
       · by_cases hp : isWv c.lang.id = false ∧ (c.lang.id == 1801) = false ∧ langOk c.lang = true
-        · obtain ⟨items, hst, hleaf, _, htxt⟩ :=
+        · obtain ⟨items, hst, hleaf, _, hnoq, htxt⟩ :=
             encContentValueW_text c parent _ _ st' (nulFree_cstrOf _) hp.2.2 hp.1 hp.2.1 h
           subst hst
           refine ⟨items, hleaf, rfl, rfl, rfl, rfl, rfl, rfl, ?_⟩
-          intro _ _ _ hcd _ ctx hres own pg
+          intro _ _ _ hcd _
+          refine ⟨hnoq, ?_⟩
+          intro ctx hres own pg
           have hskip' : ¬ (!st.inCdata && c.ignoreEmpty && s.all isSpaceC) = true := hskip
           rw [hcd] at hskip'
           simp only [Bool.not_false, Bool.true_and] at hskip'
